@@ -1123,3 +1123,245 @@ Record two_defines (c1 : key) (L1 : str) (i1 e1 o1 v1 : list str) (n1 : need)
       if str_eqb st0 L1 && mem_str nm e1 then Some false
       else if str_eqb st0 L2 && mem_str nm e2 then Some false else find_env st0 nm s;
   td_cap : defer_cap x = defer_cap s }.
+
+Ltac kill_disj H x :=
+  let Q := fresh "Q" in
+  pose proof (H x) as Q; unfold disj in Q;
+  repeat match goal with E : mem_str x _ = _ |- _ => rewrite E in Q end;
+  cbn [orb andb] in Q; try (specialize (Q eq_refl)); discriminate.
+
+Lemma seq_define_views c1 L1 i1 e1 o1 v1 n1 c2 L2 i2 e2 o2 v2 n2 s sa s12 :
+  L1 <> L2 -> not_file c2 -> attached c2 s = true ->
+  fresh_define L1 i1 o1 v1 s -> deps_closed s ->
+  define_spec c1 L1 i1 e1 o1 v1 n1 s sa -> define_spec c2 L2 i2 e2 o2 v2 n2 sa s12 ->
+  disj o2 v2 ->
+  (forall l, mem_str l o2 || mem_str l v2 = true -> mem_str l o1 || mem_str l v1 = false) ->
+  two_defines c1 L1 i1 e1 o1 v1 n1 c2 L2 i2 e2 o2 v2 n2 s s12.
+Proof.
+  intros HL Hf2 Ha2 FD DC D1 D2 OV2 A1.
+  destruct FD as [fd_label0 fd_nfc0 fd_nd_inp0 fd_nd_out0 fd_nd_vol0 fd_io0 fd_iv0 fd_ov0 fd_nb_inp0 fd_nb_out0].
+  destruct D1 as [df_node0 df_file0 df_step0 df_dep0 df_hash0 df_env0 df_cap0 df_nfc0].
+  destruct D2 as [df_node1 df_file1 df_step1 df_dep1 df_hash1 df_env1 df_cap1 df_nfc1].
+  assert (NL : key_eqb (KStep, L2) (KStep, L1) = false) by (apply key_eqb_neq; congruence).
+  assert (NL' : str_eqb L2 L1 = false) by (apply str_eqb_neq; congruence).
+  assert (Dc2 : is_detached c2 sa = is_detached c2 s).
+  { rewrite !is_detached_view, df_node0.
+    destruct c2 as [[] y]; cbn [in_files orb]; try reflexivity.
+    - exfalso. apply Hf2. reflexivity.
+    - destruct (key_eqb (KStep, y) (KStep, L1)) eqn:E; [|reflexivity].
+      apply key_eqb_eq in E. inversion E; subst y.
+      unfold attached, is_detached in Ha2. rewrite fd_label0 in Ha2. discriminate. }
+  assert (RCa : forall x, recreated sa x = negb (mem_str x o1 || mem_str x v1) && recreated s x).
+  { intros x. unfold recreated at 1. rewrite df_node0. change (key_eqb (KFile, x) (KStep, L1)) with false.
+    cbn [in_files]. destruct (mem_str x o1 || mem_str x v1); [reflexivity|]. cbn [negb andb].
+    rewrite mem_filter. destruct (mem_str x i1 && recreated s x) eqn:E.
+    - apply andb_true_iff in E as [_ ->]. reflexivity.
+    - reflexivity. }
+  constructor.
+  - (* nodes *)
+    intros k. rewrite df_node1, Dc2, df_node0.
+    destruct k as [kk x]. destruct kk.
+    + reflexivity.
+    + change (key_eqb (KFile, x) (KStep, L2)) with false. change (key_eqb (KFile, x) (KStep, L1)) with false.
+      cbn [in_files]. rewrite !mem_filter, RCa.
+      destruct (mem_str x o1) eqn:MO1, (mem_str x v1) eqn:MV1, (mem_str x o2) eqn:MO2, (mem_str x v2) eqn:MV2;
+        cbn [orb andb negb]; try reflexivity; try (kill_disj A1 x);
+      destruct (mem_str x i1) eqn:MI1, (mem_str x i2) eqn:MI2, (recreated s x) eqn:RC; reflexivity.
+    + cbn [in_files orb andb]. rewrite (key_eqb_sym (KStep, x) (KStep, L2)), (key_eqb_sym (KStep, x) (KStep, L1)).
+      destruct (key_eqb (KStep, L2) (KStep, x)) eqn:E2, (key_eqb (KStep, L1) (KStep, x)) eqn:E1; try reflexivity.
+      apply key_eqb_eq in E1, E2. congruence.
+    + reflexivity.
+  - (* files *)
+    intros x. rewrite df_file1, !mem_filter, RCa, !df_file0, !mem_filter.
+    destruct (mem_str x o1) eqn:MO1, (mem_str x v1) eqn:MV1, (mem_str x o2) eqn:MO2, (mem_str x v2) eqn:MV2;
+      cbn [orb andb negb]; try (kill_disj A1 x); try (kill_disj fd_ov0 x); try (kill_disj OV2 x);
+    destruct (mem_str x i1) eqn:MI1, (mem_str x i2) eqn:MI2, (recreated s x) eqn:RC; cbn [orb andb negb old_state];
+      try (kill_disj fd_io0 x); try (kill_disj fd_iv0 x);
+      rewrite ?nst_planned_after_undeclared, ?nhash_planned_after_undeclared, ?nst_undeclared_twice,
+              ?nhash_undeclared_twice, ?nst_volatile, ?nhash_volatile; reflexivity.
+  - (* steps *)
+    intros l. rewrite df_step1, df_step0.
+    destruct (str_eqb l L2) eqn:E2, (str_eqb l L1) eqn:E1; try reflexivity.
+    apply str_eqb_eq in E1, E2. congruence.
+  - (* deps *)
+    intros a b. rewrite df_dep1, !df_dep0, !existsn_view, df_node0.
+    destruct b as [kk x]. destruct kk.
+    + reflexivity.
+    + change (key_eqb (KFile, x) (KStep, L2)) with false. change (key_eqb (KFile, x) (KStep, L1)) with false.
+      cbn [in_files andb]. rewrite !mem_filter, RCa.
+      assert (DCx : is_some (node_view (KFile, x) s) = false -> find_dep a (KFile, x) s = None).
+      { intros E. apply DC. rewrite existsn_view. exact E. }
+      destruct (mem_str x o1) eqn:MO1, (mem_str x v1) eqn:MV1, (mem_str x o2) eqn:MO2, (mem_str x v2) eqn:MV2;
+        cbn [orb andb negb is_some]; try (kill_disj A1 x);
+      destruct (mem_str x i1) eqn:MI1, (mem_str x i2) eqn:MI2, (recreated s x) eqn:RC; cbn [orb andb negb is_some];
+      destruct (key_eqb a (KStep, L1)), (key_eqb a (KStep, L2)); try reflexivity;
+      destruct (is_some (node_view (KFile, x) s)) eqn:EX; cbn [andb]; rewrite ?(DCx eq_refl); reflexivity.
+    + cbn [in_files orb andb].
+      destruct (key_eqb (KStep, x) (KStep, L2)) eqn:E2, (key_eqb (KStep, x) (KStep, L1)) eqn:E1; cbn [andb].
+      * apply key_eqb_eq in E1, E2. congruence.
+      * destruct (in_files a i2); reflexivity.
+      * destruct (in_files a i1); reflexivity.
+      * reflexivity.
+    + reflexivity.
+  - (* stored hashes *)
+    intros y. rewrite df_hash1, df_hash0.
+    rewrite (existsb_ext_in (fun l => lostb sa l y) (fun l => lostb s l y) o2).
+    2:{ intros x Hx. apply mem_str_In in Hx. rewrite !lostb_view, df_node0.
+        change (key_eqb (KFile, x) (KStep, L1)) with false. cbn [in_files].
+        rewrite (A1 x) by (rewrite Hx; reflexivity). rewrite mem_filter.
+        destruct (mem_str x i1 && recreated s x) eqn:E; [|reflexivity].
+        apply andb_true_iff in E as [_ RC]. rewrite <- lostb_view. symmetry. apply lostb_orphan. exact RC. }
+    rewrite (existsb_ext_in (fun l => lostb sa l y) (fun l => lostb s l y) v2).
+    2:{ intros x Hx. apply mem_str_In in Hx. rewrite !lostb_view, df_node0.
+        change (key_eqb (KFile, x) (KStep, L1)) with false. cbn [in_files].
+        rewrite (A1 x) by (rewrite Hx, orb_true_r; reflexivity). rewrite mem_filter.
+        destruct (mem_str x i1 && recreated s x) eqn:E; [|reflexivity].
+        apply andb_true_iff in E as [_ RC]. rewrite <- lostb_view. symmetry. apply lostb_orphan. exact RC. }
+    reflexivity.
+  - (* env rows *)
+    intros st0 nm. rewrite df_env1, df_env0.
+    destruct (str_eqb st0 L2) eqn:E2, (str_eqb st0 L1) eqn:E1; cbn [andb]; try reflexivity.
+    apply str_eqb_eq in E1, E2. congruence.
+  - congruence.
+Qed.
+
+Lemma two_defines_sym c1 L1 i1 e1 o1 v1 n1 c2 L2 i2 e2 o2 v2 n2 s x x' :
+  L1 <> L2 ->
+  (forall l, mem_str l o2 || mem_str l v2 = true -> mem_str l o1 || mem_str l v1 = false) ->
+  two_defines c1 L1 i1 e1 o1 v1 n1 c2 L2 i2 e2 o2 v2 n2 s x ->
+  two_defines c2 L2 i2 e2 o2 v2 n2 c1 L1 i1 e1 o1 v1 n1 s x' ->
+  st_equiv x x'.
+Proof.
+  intros HL A1 [n0 f0 s0 d0 h0 ev0 c0] [n1' f1 s1 d1 h1 ev1 c1'].
+  constructor.
+  - intros k. rewrite n0, n1'. destruct k as [kk y]. destruct kk; try reflexivity.
+    + change (key_eqb (KFile, y) (KStep, L2)) with false. change (key_eqb (KFile, y) (KStep, L1)) with false.
+      cbn [in_files].
+      destruct (mem_str y o1) eqn:MO1, (mem_str y v1) eqn:MV1, (mem_str y o2) eqn:MO2, (mem_str y v2) eqn:MV2;
+        cbn [orb andb]; try reflexivity; try (kill_disj A1 y);
+      destruct (mem_str y i1), (mem_str y i2); reflexivity.
+    + cbn [in_files orb andb].
+      destruct (key_eqb (KStep, y) (KStep, L1)) eqn:E1, (key_eqb (KStep, y) (KStep, L2)) eqn:E2; try reflexivity.
+      apply key_eqb_eq in E1, E2. congruence.
+  - intros l. rewrite f0, f1.
+    rewrite (orb_comm (mem_str l o2)), (orb_comm (mem_str l v2)), (orb_comm (mem_str l i2)). reflexivity.
+  - intros l. rewrite s0, s1.
+    destruct (str_eqb l L1) eqn:E1, (str_eqb l L2) eqn:E2; try reflexivity.
+    apply str_eqb_eq in E1, E2. congruence.
+  - intros a b. rewrite d0, d1. destruct b as [kk y]. destruct kk; try reflexivity.
+    + change (key_eqb (KFile, y) (KStep, L2)) with false. change (key_eqb (KFile, y) (KStep, L1)) with false.
+      cbn [in_files andb].
+      destruct (mem_str y o1) eqn:MO1, (mem_str y v1) eqn:MV1, (mem_str y o2) eqn:MO2, (mem_str y v2) eqn:MV2;
+        cbn [orb andb]; try reflexivity; try (kill_disj A1 y);
+      destruct (mem_str y i1), (mem_str y i2); reflexivity.
+    + cbn [in_files orb andb].
+      destruct (key_eqb (KStep, y) (KStep, L1)) eqn:E1, (key_eqb (KStep, y) (KStep, L2)) eqn:E2; cbn [andb];
+        try reflexivity.
+      apply key_eqb_eq in E1, E2. congruence.
+  - intros y. rewrite h0, h1.
+    destruct (has_hash y s), (existsb (fun l => lostb s l y) o1), (existsb (fun l => lostb s l y) v1),
+             (existsb (fun l => lostb s l y) o2), (existsb (fun l => lostb s l y) v2); reflexivity.
+  - intros st0 nm. rewrite ev0, ev1.
+    destruct (str_eqb st0 L1) eqn:E1, (str_eqb st0 L2) eqn:E2; cbn [andb]; try reflexivity.
+    apply str_eqb_eq in E1, E2. congruence.
+  - congruence.
+Qed.
+
+Lemma recreated_after_define c1 L1 i1 e1 o1 v1 n1 s sa :
+  define_spec c1 L1 i1 e1 o1 v1 n1 s sa ->
+  forall x, recreated sa x = negb (mem_str x o1 || mem_str x v1) && recreated s x.
+Proof.
+  intros [df_node0 _ _ _ _ _ _ _] x. unfold recreated at 1. rewrite df_node0.
+  change (key_eqb (KFile, x) (KStep, L1)) with false.
+  cbn [in_files]. destruct (mem_str x o1 || mem_str x v1); [reflexivity|]. cbn [negb andb].
+  rewrite mem_filter. destruct (mem_str x i1 && recreated s x) eqn:E.
+  - apply andb_true_iff in E as [_ ->]. reflexivity.
+  - reflexivity.
+Qed.
+
+Lemma claims_disjoint c1 L1 i1 e1 o1 v1 n1 s sa (o2 v2 : list str) :
+  define_spec c1 L1 i1 e1 o1 v1 n1 s sa -> attached c1 s = true ->
+  (forall l, In l o2 \/ In l v2 -> existing_claim l sa = Ok None) ->
+  forall l, mem_str l o2 || mem_str l v2 = true -> mem_str l o1 || mem_str l v1 = false.
+Proof.
+  intros [df_node0 df_file0 _ _ _ _ _ _] Ha CL l M.
+  assert (Hd : is_detached c1 s = false) by (unfold attached in Ha; apply negb_true_iff in Ha; exact Ha).
+  destruct (mem_str l o1 || mem_str l v1) eqn:M1; [|reflexivity]. exfalso.
+  assert (HI : In l o2 \/ In l v2).
+  { apply orb_true_iff in M as [M|M]; [left|right]; apply mem_str_In; exact M. }
+  specialize (CL l HI). revert CL.
+  assert (Hn : node_view (KFile, l) sa = Some (Some (KStep, L1), false)).
+  { rewrite df_node0. change (key_eqb (KFile, l) (KStep, L1)) with false. cbn [in_files]. rewrite M1, Hd. reflexivity. }
+  destruct (mem_str l o1) eqn:MO.
+  - eapply claim_some_of_views; [exact Hn | rewrite df_file0, MO; reflexivity|].
+    destruct (old_state (file_view l s)) as [[]|]; discriminate.
+  - cbn [orb] in M1. eapply claim_some_of_views; [exact Hn | rewrite df_file0, MO, M1; reflexivity|].
+    rewrite nst_volatile. discriminate.
+Qed.
+
+Lemma fresh_after_define c1 L1 i1 e1 o1 v1 n1 L2 i2 o2 v2 s sa :
+  L1 <> L2 ->
+  define_spec c1 L1 i1 e1 o1 v1 n1 s sa ->
+  fresh_define L1 i1 o1 v1 s -> fresh_define L2 i2 o2 v2 s ->
+  (forall l, mem_str l o2 || mem_str l v2 = true -> mem_str l o1 || mem_str l v1 = false) ->
+  fresh_define L2 i2 o2 v2 sa.
+Proof.
+  intros HL D1 F1 F2 A1. pose proof (recreated_after_define _ _ _ _ _ _ _ _ _ D1) as RCa.
+  destruct D1 as [df_node0 df_file0 _ _ _ _ _ df_nfc0].
+  destruct F1 as [_ _ _ _ _ _ _ _ nb_inp1 nb_out1].
+  destruct F2 as [lab2 _ nd_i2 nd_o2 nd_v2 io2 iv2 ov2 nb_inp2 nb_out2].
+  assert (FVa : forall l, mem_str l o1 || mem_str l v1 = false ->
+                          old_state (file_view l s) <> Some FBuilt -> old_state (file_view l sa) <> Some FBuilt).
+  { intros l M NB. rewrite df_file0. apply orb_false_iff in M as [-> ->]. rewrite mem_filter.
+    destruct (mem_str l i1 && recreated s l); [|exact NB].
+    cbn [old_state]. intros E. inversion E as [E'].
+    exact (nst_not_built FUndeclared _ NB ltac:(discriminate) E'). }
+  constructor; try assumption.
+  - apply find_node_none_view. rewrite df_node0.
+    assert (NL : key_eqb (KStep, L2) (KStep, L1) = false) by (apply key_eqb_neq; congruence).
+    rewrite NL. cbn [in_files orb]. apply find_node_none_view. exact lab2.
+  - intros l Hl Hr. rewrite RCa in Hr. apply andb_true_iff in Hr as [M RC]. apply negb_true_iff in M.
+    apply FVa; [exact M|]. apply nb_inp2; assumption.
+  - intros l Hl. apply FVa.
+    + apply A1. apply mem_str_In in Hl. rewrite Hl. reflexivity.
+    + apply nb_out2. exact Hl.
+Qed.
+
+Theorem define_define_commute (s sa sb s12 s21 : st)
+        (c1 : key) (L1 : str) (i1 e1 o1 v1 : list str) (n1 : need)
+        (c2 : key) (L2 : str) (i2 e2 o2 v2 : list str) (n2 : need) :
+  L1 <> L2 -> not_file c1 -> not_file c2 -> attached c1 s = true -> attached c2 s = true ->
+  fresh_define L1 i1 o1 v1 s -> fresh_define L2 i2 o2 v2 s -> deps_closed s ->
+  step_op (OpDefineStep c1 L1 i1 e1 o1 v1 n1) s = Ok sa ->
+  step_op (OpDefineStep c2 L2 i2 e2 o2 v2 n2) sa = Ok s12 ->
+  step_op (OpDefineStep c2 L2 i2 e2 o2 v2 n2) s = Ok sb ->
+  step_op (OpDefineStep c1 L1 i1 e1 o1 v1 n1) sb = Ok s21 ->
+  st_equiv s12 s21.
+Proof.
+  cbn [step_op]. intros HL Hf1 Hf2 Ha1 Ha2 F1 F2 DC R1 R12 R2 R21.
+  apply define_step_new_of_ok in R1; [|exact (fd_label _ _ _ _ _ F1)].
+  apply define_step_new_spec in R1; [|exact F1].
+  apply define_step_new_of_ok in R2; [|exact (fd_label _ _ _ _ _ F2)].
+  apply define_step_new_spec in R2; [|exact F2].
+  (* r2 after r1 *)
+  assert (La : find_node (KStep, L2) sa = None).
+  { apply find_node_none_view. rewrite (df_node _ _ _ _ _ _ _ _ _ R1).
+    assert (NL : key_eqb (KStep, L2) (KStep, L1) = false) by (apply key_eqb_neq; congruence).
+    rewrite NL. cbn [in_files orb]. apply find_node_none_view. exact (fd_label _ _ _ _ _ F2). }
+  apply define_step_new_of_ok in R12; [|exact La].
+  pose proof (claims_disjoint _ _ _ _ _ _ _ _ _ o2 v2 R1 Ha1 (define_new_claims _ _ _ _ _ _ _ _ _ R12)) as A1.
+  apply define_step_new_spec in R12; [|eapply fresh_after_define; eassumption].
+  (* r1 after r2 *)
+  assert (A2 : forall l, mem_str l o1 || mem_str l v1 = true -> mem_str l o2 || mem_str l v2 = false).
+  { intros l M. destruct (mem_str l o2 || mem_str l v2) eqn:M2; [|reflexivity].
+    rewrite (A1 l M2) in M. discriminate. }
+  assert (Lb : find_node (KStep, L1) sb = None).
+  { apply find_node_none_view. rewrite (df_node _ _ _ _ _ _ _ _ _ R2).
+    assert (NL : key_eqb (KStep, L1) (KStep, L2) = false) by (apply key_eqb_neq; congruence).
+    rewrite NL. cbn [in_files orb]. apply find_node_none_view. exact (fd_label _ _ _ _ _ F1). }
+  apply define_step_new_of_ok in R21; [|exact Lb].
+  apply define_step_new_spec in R21; [|eapply fresh_after_define; try eassumption; congruence].
+  eapply (two_defines_sym c1 L1 i1 e1 o1 v1 n1 c2 L2 i2 e2 o2 v2 n2 s s12 s21 HL A1).
+  - eapply seq_define_views; try eassumption. exact (fd_ov _ _ _ _ _ F2).
+  - eapply seq_define_views; try eassumption; [congruence | exact (fd_ov _ _ _ _ _ F1)].
+Qed.
